@@ -452,4 +452,65 @@ theorem finishRoot_durability (o : Oracle) (h : Handle) (out : Out) (tag : Nat) 
     refine ⟨fun _ => by rw [gormRollback_committed]; exact hfe.1, fun h => ?_⟩
     exact absurd h (by simpa using hne)
 
+/-- a statement on the open transaction changes the working store only: the save-point stack is untouched -/
+theorem drvExecTx_saves (o : Oracle) (w : Write) (db : DB) (t : TxSt) (ht : db.tx = some t) :
+    ∃ cur, (drvExecTx o w db).1.tx = some { cur := cur, saves := t.saves } := by
+  unfold drvExecTx tick
+  rw [ht]; dsimp only
+  split
+  · exact ⟨t.cur, by simp [ht]⟩
+  · split
+    · exact ⟨_, rfl⟩
+    · exact ⟨t.cur, by simp [ht]⟩
+
+/-- a body of writes only (any must flags, any faults) on a clean transaction handle keeps the save-point stack and the handle -/
+theorem writes_keep_saves (c : Cfg) (o : Oracle) (h : Handle) (hp : h.pool.isCommitter = true) (he : h.err = []) :
+    ∀ (ws : List Prog), (∀ p ∈ ws, ∃ w m, p = Prog.write w m) → ∀ (db : DB) (t : TxSt), db.tx = some t →
+      (runBody c o h ws db).2.1 = h ∧ ∃ cur, (runBody c o h ws db).1.tx = some { cur := cur, saves := t.saves }
+  | [], _, db, t, ht => by unfold runBody; exact ⟨rfl, t.cur, by simp [ht]⟩
+  | p :: ps, hws, db, t, ht => by
+    obtain ⟨w, m, rfl⟩ := hws p (by simp)
+    have hrest : ∀ q ∈ ps, ∃ w m, q = Prog.write w m := fun q hq => hws q (by simp [hq])
+    have h1 : (runChild c o h (.write w m) db).2.1 = h ∧
+        ∃ cur, (runChild c o h (.write w m) db).1.tx = some { cur := cur, saves := t.saves } := by
+      unfold runChild gormWrite
+      simp only [he, ne_eq, not_true_eq_false, if_false, hp, if_true]
+      exact ⟨trivial, drvExecTx_saves o w _ t (by simpa using ht)⟩
+    unfold runBody
+    generalize runChild c o h (.write w m) db = r1 at h1
+    obtain ⟨db1, h1', r⟩ := r1
+    obtain ⟨hh, cur1, hc1⟩ := h1
+    dsimp only at hh hc1 ⊢
+    subst hh
+    have ih := writes_keep_saves c o h1' hp he ps hrest db1 _ hc1
+    split
+    · exact ih
+    · split
+      · exact ⟨rfl, cur1, hc1⟩
+      · exact ih
+
+/-- SAVEPOINT / ROLLBACK TO exactness on a clean transaction handle: after `SavePoint(n)`, any sequence of writes (failing or
+    not, whatever their must flags) and `RollbackTo(n)` — with no fault in the SAVEPOINT and ROLLBACK TO statements themselves —
+    the working store is exactly the store at the save point and the save-point stack is the one right after `SavePoint(n)`. -/
+theorem savepoint_exact (c : Cfg) (o : Oracle) (h : Handle) (hp : h.pool.isCommitter = true) (he : h.err = [])
+    (n : Nat) (ws : List Prog) (hws : ∀ p ∈ ws, ∃ w m, p = Prog.write w m) (db : DB) (v : Store) (S : List (SpName × Store))
+    (ht : db.tx = some { cur := v, saves := S }) (hsp : o db.calls = false)
+    (hrb : o (runBody c o h ws (runChild c o h (.sp n true) db).1).1.calls = false) :
+    (runChild c o h (.rb n true) (runBody c o h ws (runChild c o h (.sp n true) db).1).1).1.tx =
+      some { cur := v, saves := (.manual n, v) :: S } ∧
+    (runChild c o h (.rb n true) (runBody c o h ws (runChild c o h (.sp n true) db).1).1).2.2 = .ok := by
+  obtain ⟨pool, err⟩ := h
+  dsimp only at he hp
+  subst he
+  have hsp1 : (runChild c o { pool := pool, err := [] } (.sp n true) db).1.tx = some { cur := v, saves := (.manual n, v) :: S } ∧
+      (runChild c o { pool := pool, err := [] } (.sp n true) db).2.1 = { pool := pool, err := [] } := by
+    unfold runChild gormSavePoint execRawTx drvSavepoint tick
+    simp [markStale, ht, hsp, addError]
+  obtain ⟨hh, cur, hc⟩ := writes_keep_saves c o { pool := pool, err := [] } hp rfl ws hws _ _ hsp1.1
+  generalize runBody c o { pool := pool, err := [] } ws (runChild c o { pool := pool, err := [] } (.sp n true) db).1 = b at hh hc hrb
+  obtain ⟨db2, h2, r2⟩ := b
+  dsimp only at hh hc hrb ⊢
+  unfold runChild gormRollbackTo execRawTx drvRollbackTo tick
+  simp [markStale, hc, hrb, addError, findSp, resOf]
+
 end Gorm.Tx
